@@ -18,6 +18,12 @@ BAD = [
     ("non-primitive-enum", {"enum": [[1, 2], "b"]}),
     ("non-primitive-enum-object", {"enum": [{"a": 1}]}),
     ("integer-enum-non-number", {"type": "integer", "enum": ["x"]}),
+    # faults the schema decoder itself must report (wrong JSON type for a keyword)
+    ("decode-minLength-string", {"type": "string", "minLength": "3"}),
+    ("decode-type-number", {"type": 5}),
+    ("decode-required-string", {"type": "object", "properties": {"label": {"type": "string"}}, "required": "label"}),
+    ("decode-properties-array", {"type": "object", "properties": []}),
+    ("decode-items-number", {"type": "array", "items": 5}),
 ]
 
 FIXED_BASES = [
@@ -31,6 +37,9 @@ FIXED_BASES = [
                                                     {"type": "object", "properties": {"q": {"type": "integer"}}, "required": ["q"]}]}}},
     {"type": "object", "$defs": {"A": {"type": "object", "properties": {"s": {"type": "string"}}, "required": ["s"]}},
      "properties": {"w": {"allOf": [{"$ref": "#/$defs/A"}, {"type": "object", "properties": {"t": {"type": "boolean"}}}]}}},
+    # the legacy spelling of the definitions keyword (decoded by a second pass of the schema decoder), referenced and unreferenced
+    {"type": "object", "definitions": {"Tag": {"type": "object", "properties": {"label": {"type": "string", "minLength": 1}}, "required": ["label"]}, "Unused": {"type": "string"}},
+     "properties": {"tags": {"type": "array", "items": {"$ref": "#/definitions/Tag"}}, "n": {"type": "integer"}}},
     # composites nested through inline object branches that share referenced branches (the generator visits the inner one more than once, with cycle bookkeeping)
     {"type": "object", "$defs": {"Text": {"type": "object", "properties": {"text": {"type": "string"}}, "required": ["text"]},
                                  "Image": {"type": "object", "properties": {"url": {"type": "string"}}, "required": ["url"]}},
